@@ -390,7 +390,7 @@ def r01_4(ctx):
 def rules(ctx):
     from ..engine import only
     from . import c02
-    return [r01_1, r01_2, r01_3, r01_4, r01_5, r01_6, c14.r14_6, c02.r02_1, c02.r02_5,
+    return [__import__('vjsx.rules.c10', fromlist=['x']).field_ratchet('a memo on the visitor makes the props of one element depend on an earlier one'), r01_1, r01_2, r01_3, r01_4, r01_5, r01_6, c14.r14_6, c02.r02_1, c02.r02_5,
             only(c07.r07_6, lambda k: "transform_attrs" in k or k.startswith("JSX attribute literal"), "string attribute values"),
             c11.r11_4]
 
